@@ -49,8 +49,8 @@ def run(ctx, driver):
     ctx.rule = ("generated systems (17 shapes) x parameters block none/all/partial/with an unused extra/with a parameter referenced only by an initial value x default or custom "
                 "output_timestep_symbol and differential_order_symbol x optional function-of-time entry x disable_analytic_solver; every returned dictionary checked; "
                 "distinct = distinct inputs; non-trivial = result with >= 2 state variables or two solvers")
-    cases = gen_cases(ctx, 110 if quick else 2000)
-    results = pool.run_cases("harness.core.cases", "case_dict", cases, timeout=50 if quick else 120, init="init_worker", deadline=ctx.deadline())
+    cases = gen_cases(ctx, ctx.n(110, 2000))
+    results = pool.run_cases("harness.core.cases", "case_dict", cases, timeout=ctx.n(50, 120), init="init_worker", deadline=ctx.deadline())
     for case, res in zip(cases, results):
         ctx.evaluations += 1
         if not _shared.usable(ctx, res):
